@@ -15,7 +15,7 @@ RULE = ("strings generated from the URI grammar and its near misses (3 protocols
         "PYTHONHASHSEEDs. distinct = distinct strings; non-trivial = strings URI() accepts")
 ASSUMPTIONS = ["hash() raising TypeError for a PYROMETA uri (set-valued object) is recorded, not flagged: no hash is not an unequal hash",
                "json/msgpack carry the PYROMETA tag set as a list (C01's mapping); compared as a set"]
-REQUIRED_REACH = ["variant_pairs", "accepted", "rejected", "ser_roundtrips", "proxy_roundtrips", "ns_roundtrips", "unequal_location_pairs"]
+REQUIRED_REACH = ["variant_pairs", "accepted", "rejected", "ser_roundtrips", "proxy_roundtrips", "ns_roundtrips", "unequal_location_pairs", "bound_proxies_checked"]
 SHARD_TIMEOUT = {"quick": 200, "thorough": 2400}
 
 PROTOS = ["PYRO", "pyro", "PyRo", "PYRONAME", "pyroname", "PyroName", "PYROMETA", "pyrometa", "PyroMeta", "PYROX", "PYR", "PYRONAMES", "pYRO"]
@@ -228,6 +228,61 @@ def variants(s, r):
     return out
 
 
+def bound_proxy_phase(env, rec, r):
+    """'... or a proxy holding it': a proxy made from a name-server uri, used as a dict key, then bound (its uri is replaced by the resolved
+    one); afterwards it designates the same object as every proxy made from the resolved uri, and whatever compares equal hashes equal"""
+    import threading
+    from Pyro5 import server, nameserver, config
+    config.SERVERTYPE = "thread"
+    config.POLLTIMEOUT = 0.5
+    config.COMMTIMEOUT = 0.0
+    nsd = nameserver.NameServerDaemon(host="127.0.0.1", port=0)
+    d = server.Daemon(host="127.0.0.1", port=0)
+
+    @server.expose
+    class Thing(object):
+        def ping(self):
+            return "pong"
+    threads = [threading.Thread(target=x.requestLoop, daemon=True) for x in (nsd, d)]
+    for t in threads:
+        t.start()
+    try:
+        for k in range(6):
+            name = r.choice(["example.thing", "a,b", "Thing%41", "ö.x", "t:1"]) + str(k)
+            uri = d.register(Thing(), "thing%d" % k)
+            nsd.nameserver.register(name, uri, metadata={"m%d" % k})
+            text = "PYRONAME:%s@%s" % (name, nsd.locationStr)
+            rec.case(("bound-proxy", text), nontrivial=True)
+            p = env.Proxy(text)
+            seen = {p: "before binding"}
+            p._pyroBind()
+            if p.ping() != "pong":
+                rec.violation("bound-proxy-wrong-object", "proxy for %r does not reach its object" % text, None)
+                return
+            peers = [("Proxy(resolved uri)", env.Proxy(p._pyroUri)), ("Proxy(text of resolved uri)", env.Proxy(str(p._pyroUri)))]
+            for sname, ser in env.sers.items():
+                peers.append((sname + " round trip", ser.loads(ser.dumps(p))))
+            for label, q in peers:
+                if norm(q._pyroUri) != norm(uri):
+                    rec.violation("proxy-designates-other-object", "%s of the proxy bound from %r holds %s, the name denotes %s" % (label, text, q._pyroUri, uri), None)
+                    return
+                if q == p and hash(q) != hash(p):
+                    rec.violation("equal-but-hash-differs", "a proxy made from %r, hashed, then bound: it equals %s (both hold %s) but their hashes differ" % (text, label, q._pyroUri), None)
+                    return
+            del seen
+            for _, q in peers:
+                q._pyroRelease()
+            p._pyroRelease()
+            rec.count("bound_proxies_checked")
+    finally:
+        nsd.shutdown()
+        d.shutdown()
+        for t in threads:
+            t.join(5)
+        nsd.close()
+        d.close()
+
+
 def plan(tier, seed):
     n = 8 if tier == "quick" else 16
     per = 20000 if tier == "quick" else 120000
@@ -242,6 +297,8 @@ def run_shard(shard, rec):
     env = Env()
     try:
         r = gen.rng(rec.seed, "c19", shard["i"])
+        if shard["i"] % 4 == 0:
+            bound_proxy_phase(env, rec, r)
         prev = None
         for j in range(shard["n"]):
             s = make_string(r)
